@@ -109,9 +109,9 @@ func b2i(b bool) int {
 	return 0
 }
 
-// simSeq runs ops; err is "" or why the sequence is not acceptable. sharedSendReg: as the frozen
-// tree does it (known defect select-send-cases-share-value-register), every send case of a select
-// sends the value of the statement's LAST send case.
+// simSeq runs ops; err is "" or why the sequence is not acceptable. sharedSendReg (not Go's
+// semantics; what the tree did before c092f56, kept to say what a failing program looks like):
+// every send case of a select sends the value of the statement's LAST send case.
 func simSeq(st []simCh, ops []sop, trace *[]int, fuel *int, sharedSendReg bool) string {
 	for _, o := range ops {
 		*fuel--
@@ -291,9 +291,8 @@ func (sg *seqGen) candidate(nch, depth int) sop {
 		sends := 0
 		for n := 1 + r.Intn(4); n > 0; n-- {
 			cs := sCase{ch: r.Intn(nch), form: r.Intn(3)}
-			// several send cases in one select: the frozen tree keeps ONE value register per class
-			// for all of them (known defect select-send-cases-share-value-register; what it
-			// makes of the program is predicted exactly, see predictSharedSend)
+			// several send cases in one select: every one sends its own value (the tree once
+			// kept ONE value register per class for all of them)
 			if sends < 3 && (r.Intn(3) == 0 || sg.bias && r.Intn(2) == 0) {
 				cs.send, cs.v = true, sg.nextVal()
 				sends++
@@ -452,6 +451,13 @@ func (w *seqWriter) ops(ops []sop, depth int) {
 		case 'X':
 			w.f(depth, "select {\n")
 			for j, c := range o.cases {
+				// the names a case declares: of its own in the whole function, or (two selects
+				// out of three) the same for the j-th case of every select — a later select
+				// declares again what an earlier one declared
+				yv, kv := fmt.Sprintf("y%dn%d", n, j), fmt.Sprintf("k%dn%d", n, j)
+				if n%3 != 0 {
+					yv, kv = fmt.Sprintf("ys%d", j), fmt.Sprintf("ks%d", j)
+				}
 				switch {
 				case c.send:
 					w.f(depth, "case c%d <- %d:\n", c.ch, c.v)
@@ -460,11 +466,11 @@ func (w *seqWriter) ops(ops []sop, depth int) {
 					w.f(depth, "case <-c%d:\n", c.ch)
 					w.f(depth+1, "tr += \"%d,\"\n", j)
 				case c.form == 1:
-					w.f(depth, "case y%dn%d := <-c%d:\n", n, j, c.ch)
-					w.f(depth+1, "tr += \"%d,\" + h.Itoa(y%dn%d) + \",\"\n", j, n, j)
+					w.f(depth, "case %s := <-c%d:\n", yv, c.ch)
+					w.f(depth+1, "tr += \"%d,\" + h.Itoa(%s) + \",\"\n", j, yv)
 				default:
-					w.f(depth, "case y%dn%d, k%dn%d := <-c%d:\n", n, j, n, j, c.ch)
-					w.f(depth+1, "tr += \"%d,\" + h.Itoa(y%dn%d) + \",\" + ob@@(k%dn%d)\n", j, n, j, n, j)
+					w.f(depth, "case %s, %s := <-c%d:\n", yv, kv, c.ch)
+					w.f(depth+1, "tr += \"%d,\" + h.Itoa(%s) + \",\" + ob@@(%s)\n", j, yv, kv)
 				}
 			}
 			if o.dflt {
@@ -548,16 +554,6 @@ func (p *seqProg) raw() string {
 
 // expected is the output according to the simulator (used while shrinking; gc decides).
 func (p *seqProg) expected() string { return p.expectedWith(false) }
-
-// predictSharedSend: what the frozen tree prints because of the known defect
-// select-send-cases-share-value-register, if that differs from Go's output — computed from the
-// program alone. nil: the defect does not show in this program.
-func (p *seqProg) predictSharedSend() *prediction {
-	if d := p.expectedWith(true); d != p.expected() {
-		return &prediction{id: "select-send-cases-share-value-register", effect: "output", output: d}
-	}
-	return nil
-}
 
 func (p *seqProg) expectedWith(sharedSendReg bool) string {
 	line := func(k int) string {
@@ -644,7 +640,7 @@ func (p *seqProg) features() []string {
 }
 
 func (p *seqProg) program() *program {
-	return &program{N: 4, M: 2, raw: p.raw(), shapes: append([]string{"opseq"}, p.features()...), seq: p, predict: p.predictSharedSend()}
+	return &program{N: 4, M: 2, raw: p.raw(), shapes: append([]string{"opseq"}, p.features()...), seq: p}
 }
 
 func genSeq(r *proto.Rand) *program {
